@@ -187,6 +187,36 @@ theorem parse_range_header_eq (value : Option (List Char)) (mi : Bool) :
             simp [range_init_ok _ _ hv, Pre.lower, Pre.strip, Cond.lowerA]
     · simp [hm]
 
+/-- `unquote_etag(etag)`, as translated from the current source (falsy input, `strip`, the
+`W/` / `w/` prefix through `startswith` with a tuple, the slices `etag[:1] == etag[-1:] == '"'` and
+`etag[1:-1]`), returns exactly what the model's `unquoteEtag` returns - `(None, None)` for the
+model's `none` - for every text and for `None`. -/
+theorem unquote_etag_eq (etag : Option (List Char)) :
+    Gen.PyFns_Range.unquote_etag etag =
+      match etag with
+      | none => (none, none)
+      | some s =>
+        match Cond.unquoteEtag s with
+        | none => (none, none)
+        | some (e, w) => (some e, some w) := by
+  cases etag with
+  | none => rfl
+  | some s =>
+    show Gen.PyFns_Range.unquote_etag (some s) = match Cond.unquoteEtag s with
+      | none => (none, none)
+      | some (e, w) => (some e, some w)
+    rw [unquoteEtag_spec]
+    unfold Gen.PyFns_Range.unquote_etag
+    by_cases he : s.isEmpty = true
+    · simp [he]
+    · have h2 : ∀ l : List Char, slice l (some 2) none = l.drop 2 := fun l => slice_nat_none l 2
+      have h1 : ∀ l : List Char, slice l none (some 1) = l.take 1 := fun l => slice_none_nat l 1
+      simp only [he, Bool.false_eq_true, if_false, Pre.strip, h2, h1, slice_neg_one_none,
+        slice_one_neg_one', quoted_test]
+      by_cases hw : (startswith (Py.strip s) ['W', '/'] || startswith (Py.strip s) ['w', '/']) = true
+      · simp [hw]
+      · simp [hw]
+
 example : (Gen.PyFns_Range.parse_range_header (some "Bytes = 0-1, 5-".toList) true).toOption
     = some (some ("bytes ".toList.dropLast, [(0, some 2), (5, none)])) := by decide
 
